@@ -62,9 +62,24 @@ def compile_expr(src):
     return ast.parse(src, mode="eval").body
 
 
+class Cut:
+    """Intermediate assertion relating the real function and its specification.
+    `anchor`: source text (prefix) of the top-level statement of the real function *before*
+    which the cut sits; `name`: the CUT("name") marker statement in the specification;
+    `relation`: boolean expressions over the code's locals and, as S.<name>, the
+    specification's locals.  They are proved when both sides reach the cut and assumed
+    (over fresh symbols) when verification resumes after it."""
+
+    def __init__(self, anchor, name, relation, types=None):
+        self.anchor = anchor
+        self.name = name
+        self.relation = list(relation)
+        self.types = types or {}
+
+
 class Contract:
     def __init__(self, qual, params, spec=None, requires=None, raises=(), loops=None, props=(),
-                 lift=None, note="", abstract=None, result_type=None, search=None):
+                 lift=None, note="", abstract=None, result_type=None, search=None, cuts=()):
         self.qual = qual              # "yarl._parse:split_netloc"
         self.params = params          # list[(name, type)]
         self.spec = spec              # native function object defined in a contracts module
@@ -77,6 +92,7 @@ class Contract:
         self.abstract = abstract
         self.result_type = result_type
         self.search = search          # replay search space description
+        self.cuts = list(cuts)
 
     # --- use at a call site: the callee is its specification -----------------
     def apply(self, ex, st, args, kwargs, node, f):
@@ -87,7 +103,7 @@ class Contract:
                 raise Unsupported(f"precondition of {self.qual} forks or raises")
             v, st = outs[0]
             ex.oblige(st, f"requires:{self.qual}", "requires", ex.truth(st, v), node)
-            st.ctx.add(ex.truth(st, v))
+            st.ctx.assume(ex.truth(st, v))
         if self.abstract is not None:
             yield from self.abstract(ex, st, args, kwargs, node)
             return
@@ -151,96 +167,220 @@ def shape_equal(ex, st, a, b):
     return ex.equal(st, a, b)
 
 
-def verify_contract(contract, registry, combo_filter=None, timeout_ms=10000, rounds=3):
+def _find_anchor(body, text):
+    import ast as _ast
+    norm = " ".join(text.split())
+    for i, stmt in enumerate(body):
+        if " ".join(_ast.unparse(stmt).split()).startswith(norm):
+            return i
+    return None
+
+
+def _find_marker(body, name):
+    import ast as _ast
+    for i, stmt in enumerate(body):
+        if (isinstance(stmt, _ast.Expr) and isinstance(stmt.value, _ast.Call)
+                and getattr(stmt.value.func, "id", None) == "CUT"
+                and stmt.value.args and getattr(stmt.value.args[0], "value", None) == name):
+            return i
+    return None
+
+
+def _relation_names(exprs):
+    import ast as _ast
+    code, spec = set(), set()
+    for src in exprs:
+        tree = _ast.parse(src, mode="eval")
+        for n in _ast.walk(tree):
+            if isinstance(n, _ast.Attribute) and isinstance(n.value, _ast.Name) and n.value.id == "S":
+                spec.add(n.attr)
+        for n in _ast.walk(tree):
+            if isinstance(n, _ast.Name) and n.id != "S":
+                code.add(n.id)
+    return code, spec
+
+
+def _fresh_of(ex, ctx, name, ty):
+    if ty == "str":
+        return V.sym_str(ctx, name)
+    if ty == "int":
+        return VInt(z3.Int(name))
+    if ty == "bool":
+        return VBool(z3.Bool(name))
+    if ty == "none":
+        return NONE
+    raise ValueError(ty)
+
+
+def _eval_relation(ex, st, src, cenv, senv, spec_ms):
+    """truth of a relation expression in the combined frame"""
+    env = dict(cenv)
+    g = dict(cenv.get("__globals__", {}))
+    if spec_ms is not None:
+        g.update(spec_ms.mod.__dict__)
+    env["__globals__"] = g
+    env["S"] = V.VObj("spec-frame", {k: v for k, v in senv.items() if not k.startswith("__")}, fresh=False)
+    saved = st.env
+    st.env = env
+    try:
+        v, _ = ex.eval1(compile_expr(src), st)
+    finally:
+        st.env = saved
+    return ex.truth(st, v)
+
+
+def verify_contract(contract, registry, combo_filter=None, timeout_ms=10000, rounds=3, seg_filter=None):
     """Generate and discharge every obligation of one function. Returns a result dict."""
     t0 = time.time()
     modname, qual = contract.qual.split(":")
     ms = ModuleSrc.get(modname)
     node = ms.funcs.get(qual)
     res = {"function": contract.qual, "obligations": [], "unsupported": [], "paths": 0, "pairs": 0,
-           "inlined": [], "callee_contracts": [], "combos": 0, "solver_checks": 0, "solver_time_s": 0.0}
+           "inlined": [], "callee_contracts": [], "combos": 0, "solver_checks": 0, "solver_time_s": 0.0,
+           "segments": len(contract.cuts) + 1, "merges": 0}
     if node is None:
         res["unsupported"].append(f"function {contract.qual} not found in source")
         return res
+    spec_ms = ModuleSrc.get(contract.spec.__module__) if contract.spec else None
+    spec_node = spec_ms.funcs.get(contract.spec.__qualname__) if contract.spec else None
+    cuts = contract.cuts
+    code_idx = [0] + [_find_anchor(node.body, c.anchor) for c in cuts] + [len(node.body)]
+    spec_idx = [0] + [_find_marker(spec_node.body, c.name) for c in cuts] + [len(spec_node.body) if spec_node else 0]
+    if any(i is None for i in code_idx + spec_idx) or code_idx != sorted(code_idx) or spec_idx != sorted(spec_idx):
+        res["unsupported"].append(f"cut anchors/markers not found or out of order: code {code_idx} spec {spec_idx}")
+        return res
     alts = [make_param(None, name, ty) for name, ty in contract.params]
     combos = list(itertools.product(*alts))
+    nseg = len(cuts) + 1
     for ci, combo in enumerate(combos):
         if combo_filter is not None and ci not in combo_filter:
             continue
-        label = ",".join(f"{n}={l}" for (n, _), (l, _) in zip(contract.params, combo))
-        spec_ms = ModuleSrc.get(contract.spec.__module__) if contract.spec else None
-        loop_specs = {(contract.qual, k): LoopSpec(src, spec_ms) for k, src in contract.loops.items()}
-        ex = Executor(registry, loop_specs)
-        ex.verifying = contract.qual
-        st = St(ex)
-        st.handled = [tuple(contract.raises)]
-        args = [instantiate_param(ex, st.ctx, d) for _, d in combo]
-        fn = UserFn(ms, node, qual)
-        try:
-            if contract.requires is not None:
-                outs = list(call_spec(ex, st, ex.wrap(contract.requires), args, {}))
-                if len(outs) != 1 or isinstance(outs[0][0], Raised):
-                    raise Unsupported("precondition forks or raises")
-                st = outs[0][1]
-                st.assume(ex.truth(st, outs[0][0]))
-            if not st.feasible():
-                continue          # this combination of argument kinds is excluded by the precondition
-            res["combos"] += 1
-            sp = ex.wrap(contract.spec) if contract.spec is not None else None
-            pi = 0
-            for val, s2 in ex.run_function(st, fn, list(args), {}, None):
-                pi += 1
-                res["paths"] += 1
-                if res["paths"] > ex.max_paths:
-                    raise Unsupported("path budget exceeded")
-                if sp is None:
+        label0 = ",".join(f"{n}={l}" for (n, _), (l, _) in zip(contract.params, combo))
+        for seg in range(nseg):
+            if seg_filter is not None and seg not in seg_filter:
+                continue
+            label = label0 if nseg == 1 else f"{label0}|seg{seg}"
+            loop_specs = {(contract.qual, k): LoopSpec(src, spec_ms) for k, src in contract.loops.items()}
+            ex = Executor(registry, loop_specs)
+            ex.verifying = contract.qual
+            st = St(ex)
+            st.handled = [tuple(contract.raises)]
+            args = [instantiate_param(ex, st.ctx, d) for _, d in combo]
+            fn = UserFn(ms, node, qual)
+            sp = UserFn(spec_ms, spec_node, contract.spec.__qualname__) if contract.spec else None
+            try:
+                if contract.requires is not None:
+                    outs = list(call_spec(ex, st, ex.wrap(contract.requires), args, {}))
+                    if len(outs) != 1 or isinstance(outs[0][0], Raised):
+                        raise Unsupported("precondition forks or raises")
+                    st = outs[0][1]
+                    st.assume(ex.truth(st, outs[0][0]))
+                code_env = ex.bind_params(fn, args)
+                spec_env = ex.bind_params(sp, args) if sp else {}
+                code_env["__globals__"] = ms.mod.__dict__
+                if seg > 0:
+                    cut = cuts[seg - 1]
+                    cnames, snames = _relation_names(cut.relation)
+                    cnames -= set(dir(__import__("builtins"))) | set(spec_ms.mod.__dict__) | set(ms.mod.__dict__)
+                    for nm in sorted(cnames):
+                        if nm not in code_env:
+                            code_env[nm] = _fresh_of(ex, st.ctx, f"c_{nm}", cut.types.get(nm, "str"))
+                    for nm in sorted(snames):
+                        if nm not in spec_env:
+                            spec_env[nm] = _fresh_of(ex, st.ctx, f"s_{nm}", cut.types.get("S." + nm, "str"))
+                    import ast as _ast
+                    for src in cut.relation:
+                        t = _ast.parse(src, mode="eval").body
+                        if (isinstance(t, _ast.Compare) and len(t.ops) == 1 and isinstance(t.ops[0], _ast.Eq)
+                                and isinstance(t.left, _ast.Name) and isinstance(t.comparators[0], _ast.Attribute)
+                                and getattr(t.comparators[0].value, "id", None) == "S"
+                                and cut.types.get(t.left.id, "str") == cut.types.get("S." + t.comparators[0].attr, "str")):
+                            spec_env[t.comparators[0].attr] = code_env[t.left.id]     # same symbol on both sides
+                            continue
+                        st.assume(_eval_relation(ex, st, src, code_env, spec_env, spec_ms))
+                if not st.feasible():
+                    if seg > 0:
+                        res["unsupported"].append(f"vacuous: cut relation of {label} is contradictory")
                     continue
-                for sval, s3 in call_spec(ex, s2, sp, args, {}):
-                    res["pairs"] += 1
-                    nm = f"{label}|path{pi}"
-                    craise, sraise = isinstance(val, Raised), isinstance(sval, Raised)
-                    if not craise and not sraise:
-                        try:
-                            g = ex.equal(s3, val, sval)
-                        except Unsupported:
-                            g = z3.BoolVal(False)
-                        ex.oblige(s3, f"post:result==spec[{nm}]", "post", g, None,
-                                  {"code": describe(val), "spec": describe(sval)})
-                    elif craise and sraise:
-                        ok = issubclass(val.exc.cls, sval.exc.cls)
-                        ex.oblige(s3, f"raises:same-class[{nm}]", "raises", z3.BoolVal(ok), None,
-                                  {"code": val.exc.cls.__name__, "spec": sval.exc.cls.__name__})
-                    elif craise:
-                        ex.oblige(s3, f"raises:code-raises-{val.exc.cls.__name__}-where-spec-returns[{nm}]", "raises",
-                                  z3.BoolVal(False), None, {"code": val.exc.cls.__name__, "spec": describe(sval)})
-                    else:
-                        ex.oblige(s3, f"raises:spec-raises-{sval.exc.cls.__name__}-where-code-returns[{nm}]", "raises",
-                                  z3.BoolVal(False), None, {"code": describe(val), "spec": sval.exc.cls.__name__})
-            if pi == 0:
-                res["unsupported"].append(f"vacuous: no feasible path for {label}")
-            res["inlined"] = sorted(set(res["inlined"]) | ex.inlined)
-            res["callee_contracts"] = sorted(set(res["callee_contracts"]) | ex.called_contracts)
-        except Unsupported as u:
-            res["unsupported"].append(f"{label}: {u}")
-            continue
-        finally:
-            res["solver_checks"] += ex.sol.nchecks
-            res["solver_time_s"] += ex.sol.time
-        # obligations left open by the incremental solver: standalone prover
-        for ob in ex.obligations:
-            if ob.result is None:
-                try:
-                    ob.result = smt.prove(ob.snapshot, ob.goal, timeout_ms=timeout_ms, rounds=rounds)
-                except z3.Z3Exception as e:
-                    ob.result = smt.Result("unknown", reason=str(e))
-            rec = {"name": ob.name, "kind": ob.kind, "where": ob.where, "func": ob.func, "combo": label,
-                   "status": ob.result.status, "backend": ob.result.backend, "time_s": round(ob.result.time_s, 4),
-                   "ground": ob.result.n_ground, "info": ob.info}
-            if ob.result.status == "sat":
-                rec["validated"] = ob.result.validated
-                rec["why"] = ob.result.reason
-                rec["inputs"] = concretise(ob.result.model, contract, combo)
-            res["obligations"].append(rec)
+                if seg == 0:
+                    res["combos"] += 1
+                pi = 0
+                for flow, val, s2 in ex.run_range(st, fn, dict(code_env), code_idx[seg], code_idx[seg + 1]):
+                    pi += 1
+                    res["paths"] += 1
+                    if res["paths"] > ex.max_paths:
+                        raise Unsupported("path budget exceeded")
+                    if sp is None:
+                        continue
+                    cenv = dict(s2.env)
+                    at_cut = flow == "next" and seg < nseg - 1
+                    if flow == "next" and not at_cut:
+                        flow, val = "return", NONE
+                    depth = len(s2.handled)
+                    s2.handled.append((BaseException,))
+                    s_end = spec_idx[seg + 1] if at_cut else len(spec_node.body)
+                    s_start = spec_idx[seg] + (1 if seg > 0 else 0)
+                    senv0 = {k: v for k, v in spec_env.items()}
+                    for sflow, sval, s3 in ex.run_range(s2, sp, senv0, s_start, s_end):
+                        del s3.handled[depth:]
+                        res["pairs"] += 1
+                        nm = f"{label}|path{pi}"
+                        if at_cut:
+                            if sflow != "next":
+                                ex.oblige(s3, f"cut:{cuts[seg].name}:spec-ends-({sflow})-where-code-continues[{nm}]",
+                                          "raises", z3.BoolVal(False), None, {})
+                                continue
+                            senv = dict(s3.env)
+                            for src in cuts[seg].relation:
+                                g = _eval_relation(ex, s3, src, cenv, senv, spec_ms)
+                                ex.oblige(s3, f"cut:{cuts[seg].name}:{src}[{nm}]", "cut", g, None, {})
+                            continue
+                        if sflow == "next":
+                            sflow, sval = "return", NONE
+                        craise, sraise = flow == "raise", sflow == "raise"
+                        if not craise and not sraise:
+                            try:
+                                g = ex.equal(s3, val, sval)
+                            except Unsupported:
+                                g = z3.BoolVal(False)
+                            ex.oblige(s3, f"post:result==spec[{nm}]", "post", g, None,
+                                      {"code": describe(val), "spec": describe(sval)})
+                        elif craise and sraise:
+                            ok = issubclass(val.cls, sval.cls)
+                            ex.oblige(s3, f"raises:same-class[{nm}]", "raises", z3.BoolVal(ok), None,
+                                      {"code": val.cls.__name__, "spec": sval.cls.__name__})
+                        elif craise:
+                            ex.oblige(s3, f"raises:code-raises-{val.cls.__name__}-where-spec-returns[{nm}]", "raises",
+                                      z3.BoolVal(False), None, {"code": val.cls.__name__, "spec": describe(sval)})
+                        else:
+                            ex.oblige(s3, f"raises:spec-raises-{sval.cls.__name__}-where-code-returns[{nm}]", "raises",
+                                      z3.BoolVal(False), None, {"code": describe(val), "spec": sval.cls.__name__})
+                if pi == 0:
+                    res["unsupported"].append(f"vacuous: no feasible path for {label}")
+                res["inlined"] = sorted(set(res["inlined"]) | ex.inlined)
+                res["callee_contracts"] = sorted(set(res["callee_contracts"]) | ex.called_contracts)
+            except Unsupported as u:
+                res["unsupported"].append(f"{label}: {u}")
+                continue
+            finally:
+                res["solver_checks"] += ex.sol.nchecks
+                res["solver_time_s"] += ex.sol.time
+                res["merges"] += getattr(ex, "nmerges", 0)
+            # obligations left open by the incremental solver: standalone prover
+            for ob in ex.obligations:
+                if ob.result is None:
+                    try:
+                        ob.result = smt.prove(ob.snapshot, ob.goal, timeout_ms=timeout_ms, rounds=rounds)
+                    except z3.Z3Exception as e:
+                        ob.result = smt.Result("unknown", reason=str(e))
+                rec = {"name": ob.name, "kind": ob.kind, "where": ob.where, "func": ob.func, "combo": label,
+                       "status": ob.result.status, "backend": ob.result.backend, "time_s": round(ob.result.time_s, 4),
+                       "ground": ob.result.n_ground, "info": ob.info}
+                if ob.result.status == "sat":
+                    rec["validated"] = ob.result.validated
+                    rec["why"] = ob.result.reason
+                    rec["inputs"] = concretise(ob.result.model, contract, combo)
+                res["obligations"].append(rec)
     res["wall_s"] = round(time.time() - t0, 2)
     res["solver_time_s"] = round(res["solver_time_s"], 2)
     return res
